@@ -41,6 +41,9 @@ func init() {
 	stubTable["github.com/hashicorp/hcl/v2/hclsyntax.LexConfig"] = stubLexConfig
 }
 
+// the concrete multi-byte comment line of slot variant 3 (mirrored in support_parse.go.tmpl)
+const slotMultiByteLine = "# \u00e9\u2713 \u00fc\n"
+
 type gapInfo struct {
 	start, end int // seed byte offsets of the blank run
 	line       int // seed line
@@ -273,10 +276,10 @@ func intrStretch(in *interp, fr *frame, fn *ssa.Function, args []value) value {
 	// at most one slot receives inserted lines per path: none, one blank line,
 	// one comment line, or a comment line followed by a blank line
 	if len(st.slots) > 0 {
-		c := p.choose(1+3*len(st.slots), "slot-variant")
+		c := p.choose(1+4*len(st.slots), "slot-variant")
 		p.choices[p.freshName("choice:slot-variant")] = c
 		if c > 0 {
-			si, variant := (c-1)/3, (c-1)%3
+			si, variant := (c-1)/4, (c-1)%4
 			sl := &st.slots[si]
 			blank := func(n string) *term {
 				v := p.newVar(fmt.Sprintf("%sslot%d.%s", tag, si, n), sStr)
@@ -304,6 +307,10 @@ func intrStretch(in *interp, fr *frame, fn *ssa.Function, args []value) value {
 			case 2:
 				parts = []*term{mkStr("#"), comment("c0"), mkStr("\n"), blank("b1"), mkStr("\n")}
 				sl.k = mkInt(2)
+			case 3:
+				// a comment line with (concrete) multi-byte text: bytes and characters differ before the item
+				parts = []*term{mkStr(slotMultiByteLine)}
+				sl.k = mkInt(1)
 			}
 			sl.text = tConcat(parts...)
 			sl.bytes = tLen(sl.text)
